@@ -8,11 +8,11 @@
 package zzverif
 
 import (
-	"runtime"
 	"encoding/json"
 	"fmt"
 	"math"
 	"os"
+	"runtime"
 	"strconv"
 	"strings"
 	"testing"
@@ -157,7 +157,7 @@ func WaitUntil(cond func() bool) {
 		runtime.Gosched()
 	}
 }
-func LockLog() int        { return 0 }
+func LockLog() int { return 0 }
 func Catch(f func()) (panicked bool) {
 	defer func() {
 		if r := recover(); r != nil {
